@@ -15,6 +15,10 @@ checks = {
    text="explicit-state BFS over histories of tracker operations (Append(1..3), Expunge(i), MsgFlags(i,source), MailboxFlags, NewSession, Close, Poll with/without expunge permission) on the REAL MailboxTracker/SessionTracker, polls issued through real connections (NOOP / FETCH) and read back from the wire; closed search (bounded pending queue, frontier emptied) + depth-bounded search + un-merged histories + a command matrix for conn.poll; oracle: DecodeSeqNum/EncodeSeqNum for every number after every step, delivered updates applied in order equal the model view, no EXPUNGE when disallowed, order preserved, source suppression",
    note="mailbox <= 4, sessions <= 2 (3 thorough); Decode of numbers beyond the client's view unconstrained (undocumented)",
    technique="explicit-state model checking over the real transition function (fresh instance + history replay) vs reference model"),
+ "C08": dict(level=MC, design="DESIGN.md §4 C08",
+   text="explicit-state BFS over command histories issued one at a time by 2 (3-4) sessions sharing two mailboxes on the REAL imapserver + imapmemserver (fresh server + history replay per transition), 28-command alphabet incl. UID/non-UID forms, ranges, '*', IDLE; a wire-only observer per connection (announced count, UID per slot) + reference mailbox model + fresh probe connection; invariants on every response line: 1 <= seq <= announced count, no EXPUNGE during non-UID FETCH/STORE/SEARCH, count shrinks only by EXPUNGE, each removal reported exactly once, view == mailbox after NOOP",
+   note="mailbox size cap 3 (4); depth 5 (thorough: budgeted); stale-view '*' accepts both readings; counterexamples re-run 5x",
+   technique="explicit-state model checking over the real transition function (fresh instance + history replay) vs reference model and independent wire observer"),
  "C10": dict(level=MC, design="DESIGN.md §4 C10",
    text="the real client runs under a controlled scheduler (all goroutines, locks, channels and the connection instrumented); for each of 40 transcripts and every byte offset of the server stream the connection is cut with EOF / read error / stall+read-timeout / stall+Close, and a write error is injected at every client write call; within each fault scenario every schedule up to the deviation bound is executed; the scheduler itself decides termination (all threads finished) - no clock",
    note="scripted peer; caller honours the streaming contract; STARTTLS transcripts excluded (crypto/tls is not instrumented); bound 0 quick / 1 thorough with a per-scenario execution cap that is reported",
